@@ -96,6 +96,23 @@ class FakeProcess:
             self.exitcode = 1
 
     def join(self):
+        import sketchnu.helpers as H
+
+        if self.target is H._log_worker and self.exitcode is None and not getattr(self, "ran", False):
+            # the log process: run the REAL `_log_worker` over everything the library put on the log queue (it ends at the pill, or
+            # when the queue is empty).  A log process that dies leaves every writer blocked once the pipe is full — parallel_add hangs.
+            self.ran = True
+            import logging
+            logging.disable(logging.CRITICAL)
+            try:
+                self.target(*self.args, **self.kwargs)
+                self.exitcode = 0
+            except Exception as e:
+                self.ctx.crashes.append((self.name, repr(e)))
+                self.exitcode = 1
+            finally:
+                logging.disable(logging.NOTSET)
+            return
         if self.exitcode is None:
             self.exitcode = 0
 
